@@ -1423,3 +1423,292 @@ fn c02_int_u128_decf2_1() {
 	crate::verif::stack_node!(d = nodes::dec_fixed(2, 1));
 	cell_int::<u128>(kani::any(), d, IntKind::DecFixed(2, 1));
 }
+
+// =============================================================================================
+// C02: other presentations
+
+use crate::verif::targets::*;
+
+// @harness props=C02 tier=quick timeout=900 finding=F9
+// @bound bytes presented through serialize_bytes (0..=3 symbolic bytes) to a `string` node: Ok => length-prefixed copy AND the bytes are well-formed UTF-8 (else no reader accepts the datum); ill-formed => Err
+#[kani::proof]
+#[kani::unwind(8)]
+#[kani::stub(alloc::fmt::format, crate::verif::stub_format)]
+fn c02_bytes_to_string() {
+	let content: [u8; 3] = kani::any();
+	let n: usize = kani::any();
+	kani::assume(n <= 3);
+	let (r, out) = ser_to::<8, _>(&nodes::STRING, &SBytes(&content[..n]), false);
+	let valid = spec::utf8_valid(&content[..n]);
+	kani::cover!(!valid);
+	if r.is_ok() {
+		assert!(valid, "c02_bytes_to_string: Ok after writing a string that is not valid UTF-8 (undecodable datum)");
+		let got = out.bytes();
+		assert!(got.len() == 1 + n && got[0] == (n as u8) << 1, "c02_bytes_to_string: wrong length prefix");
+	} else {
+		assert!(!valid, "c02_bytes_to_string: valid UTF-8 bytes rejected for string");
+	}
+	std::mem::forget(r);
+}
+
+// @harness props=C02,C01 tier=quick timeout=900
+// @bound bytes (0..=4 symbolic) to `bytes`; to fixed(3): Ok iff length == 3 and then exactly those bytes; to duration: Ok iff length == 12
+#[kani::proof]
+#[kani::unwind(15)]
+#[kani::stub(alloc::fmt::format, crate::verif::stub_format)]
+fn c02_bytes_to_bytes_fixed_duration() {
+	crate::verif::stack_node!(f3 = nodes::fixed_node(3));
+	let content: [u8; 13] = kani::any();
+	let n: usize = kani::any();
+	kani::assume(n <= 4);
+	let (r, out) = ser_to::<8, _>(&nodes::BYTES, &SBytes(&content[..n]), false);
+	assert!(r.is_ok() && out.len == 1 + n && out.buf[0] == (n as u8) << 1 && (n == 0 || out.buf[n] == content[n - 1]), "c02_bytes: wrong encoding of bytes");
+	std::mem::forget(r);
+	let (r, out) = ser_to::<8, _>(f3, &SBytes(&content[..n]), false);
+	if r.is_ok() {
+		assert!(n == 3 && out.len == 3 && out.buf[0] == content[0] && out.buf[2] == content[2], "c02_fixed: Ok with a length different from the fixed size, or wrong bytes");
+	} else {
+		assert!(n != 3, "c02_fixed: bytes of the right length rejected");
+	}
+	std::mem::forget(r);
+	let m: usize = kani::any();
+	kani::assume(m <= 13);
+	let (r, out) = ser_to::<16, _>(&nodes::DURATION, &SBytes(&content[..m]), false);
+	kani::cover!(m == 12);
+	if r.is_ok() {
+		assert!(m == 12 && out.len == 12 && out.buf[11] == content[11], "c02_duration: Ok with a length different from 12");
+	} else {
+		assert!(m != 12, "c02_duration: 12 raw bytes rejected");
+	}
+	std::mem::forget(r);
+}
+
+struct StrSrc<'a>(&'a str);
+impl Serialize for StrSrc<'_> {
+	fn serialize<S: Serializer>(&self, s: S) -> Result<S::Ok, S::Error> {
+		s.serialize_str(self.0)
+	}
+}
+
+// @harness props=C02,C01 tier=quick timeout=900
+// @bound str presented to enum {a,b,cc}: each symbol -> its index as varint; non-members ("c", "", "ccc") -> Err
+#[kani::proof]
+#[kani::unwind(8)]
+#[kani::stub(alloc::fmt::format, crate::verif::stub_format)]
+fn c02_str_to_enum() {
+	crate::verif::enum_node!(en = "e", None; ["a", "b", "cc"]);
+	let (r, out) = ser_to::<4, _>(en, &StrSrc("a"), false);
+	assert!(r.is_ok() && out.len == 1 && out.buf[0] == 0, "c02_str_enum: symbol a");
+	std::mem::forget(r);
+	let (r, out) = ser_to::<4, _>(en, &StrSrc("cc"), false);
+	assert!(r.is_ok() && out.len == 1 && out.buf[0] == 4, "c02_str_enum: symbol cc");
+	std::mem::forget(r);
+	let (r, _) = ser_to::<4, _>(en, &StrSrc("c"), false);
+	assert!(r.is_err(), "c02_str_enum: symbol not in the schema accepted");
+	std::mem::forget(r);
+	let (r, _) = ser_to::<4, _>(en, &StrSrc(""), false);
+	assert!(r.is_err(), "c02_str_enum: empty symbol accepted");
+	std::mem::forget(r);
+	let (r, _) = ser_to::<4, _>(en, &StrSrc("ccc"), false);
+	assert!(r.is_err(), "c02_str_enum: symbol not in the schema accepted");
+	std::mem::forget(r);
+}
+
+/// sequence source with independent advertised length
+struct SeqAdv<'a> {
+	items: &'a [i64],
+	advertised: Option<usize>,
+}
+impl Serialize for SeqAdv<'_> {
+	fn serialize<S: Serializer>(&self, s: S) -> Result<S::Ok, S::Error> {
+		let mut q = s.serialize_seq(self.advertised)?;
+		let mut i = 0;
+		while i < self.items.len() {
+			q.serialize_element(&self.items[i])?;
+			i += 1;
+		}
+		q.end()
+	}
+}
+
+// @harness props=C02,C01 tier=thorough timeout=3000
+// @bound seq of 0..=3 longs (values -64..64) to array<long> with an advertised length that is exact, absent, smaller or larger (symbolic 0..=4): Ok => the bytes decode (reference block decoder) to exactly the presented elements; fewer elements than advertised => Err
+#[kani::proof]
+#[kani::unwind(8)]
+#[kani::stub(alloc::fmt::format, crate::verif::stub_format)]
+fn c02_seq_to_array() {
+	crate::verif::stack_node!(arr = nodes::array_of(&nodes::LONG));
+	let vals: [i64; 3] = kani::any();
+	kani::assume(vals[0] >= -64 && vals[0] < 64 && vals[1] >= -64 && vals[1] < 64 && vals[2] >= -64 && vals[2] < 64);
+	let n: usize = kani::any();
+	kani::assume(n <= 3);
+	let adv: usize = kani::any();
+	kani::assume(adv <= 5);
+	let advertised = if adv == 5 { None } else { Some(adv) };
+	let (r, out) = ser_to::<16, _>(arr, &SeqAdv { items: &vals[..n], advertised }, false);
+	kani::cover!(r.is_ok() && adv == 1 && n == 3);
+	kani::cover!(r.is_err());
+	if r.is_ok() {
+		assert!(adv == 5 || adv <= n, "c02_seq_array: Ok although fewer elements than advertised were written");
+		// reference decode: blocks of positive counts, single-byte items
+		let got = out.bytes();
+		let mut pos = 0;
+		let mut k = 0;
+		let mut guard = 0;
+		loop {
+			assert!(pos < got.len() && guard < 5, "c02_seq_array: output ends without terminating block");
+			guard += 1;
+			let c = got[pos];
+			pos += 1;
+			if c == 0 {
+				break;
+			}
+			assert!(c & 1 == 0 && c < 0x80, "c02_seq_array: unexpected block count");
+			let mut j = 0;
+			while j < (c >> 1) {
+				assert!(k < n && pos < got.len(), "c02_seq_array: more items in the output than presented");
+				assert!(spec::unzigzag64(got[pos] as u64) == vals[k], "c02_seq_array: item differs");
+				pos += 1;
+				k += 1;
+				j += 1;
+			}
+		}
+		assert!(k == n && pos == got.len(), "c02_seq_array: output does not contain exactly the presented elements");
+	} else {
+		assert!(adv != 5 && adv > n, "c02_seq_array: conforming sequence rejected");
+	}
+	std::mem::forget(r);
+}
+
+/// u8 sequence source (what a transcoder without serde_bytes would present)
+struct U8Seq<'a> {
+	items: &'a [u8],
+	advertised: Option<usize>,
+}
+impl Serialize for U8Seq<'_> {
+	fn serialize<S: Serializer>(&self, s: S) -> Result<S::Ok, S::Error> {
+		let mut q = s.serialize_seq(self.advertised)?;
+		let mut i = 0;
+		while i < self.items.len() {
+			q.serialize_element(&self.items[i])?;
+			i += 1;
+		}
+		q.end()
+	}
+}
+
+// @harness props=C02,C01 tier=thorough timeout=3000
+// @bound u8 seq of 0..=3 elements to `bytes` (slow-sequence mode on) and to fixed(2), advertised length exact / absent / wrong (symbolic): Ok => spec-exact bytes of exactly the presented elements; length mismatch => Err; mode off => Err
+#[kani::proof]
+#[kani::unwind(8)]
+#[kani::stub(alloc::fmt::format, crate::verif::stub_format)]
+fn c02_seq_to_bytes_fixed() {
+	crate::verif::stack_node!(f2 = nodes::fixed_node(2));
+	let vals: [u8; 3] = kani::any();
+	let n: usize = kani::any();
+	kani::assume(n <= 3);
+	let adv: usize = kani::any();
+	kani::assume(adv <= 4);
+	let advertised = if adv == 4 { None } else { Some(adv) };
+	let (r, out) = ser_to::<8, _>(&nodes::BYTES, &U8Seq { items: &vals[..n], advertised }, true);
+	kani::cover!(r.is_ok() && adv == 4 && n == 3);
+	if r.is_ok() {
+		assert!(adv == 4 || adv == n, "c02_seq_bytes: Ok although the advertised length differs from the number of elements");
+		assert!(out.len == 1 + n && out.buf[0] == (n as u8) << 1 && (n == 0 || out.buf[n] == vals[n - 1]), "c02_seq_bytes: wrong bytes");
+	} else {
+		assert!(adv != 4 && adv != n, "c02_seq_bytes: conforming sequence rejected");
+	}
+	std::mem::forget(r);
+	let (r, out) = ser_to::<8, _>(f2, &U8Seq { items: &vals[..n], advertised }, true);
+	if r.is_ok() {
+		assert!(n == 2 && (adv == 4 || adv == 2), "c02_seq_fixed: Ok although length differs from the fixed size");
+		assert!(out.len == 2 && out.buf[0] == vals[0] && out.buf[1] == vals[1], "c02_seq_fixed: wrong bytes");
+	} else {
+		assert!(!(n == 2 && (adv == 4 || adv == 2)), "c02_seq_fixed: conforming sequence rejected");
+	}
+	std::mem::forget(r);
+	let (r, _) = ser_to::<8, _>(&nodes::BYTES, &U8Seq { items: &vals[..n], advertised }, false);
+	assert!(r.is_err(), "c02_seq_bytes: slow sequence-to-bytes conversion must be refused unless enabled");
+	std::mem::forget(r);
+}
+
+// @harness props=C02,C01 tier=quick timeout=900
+// @bound duration from (u32,u32,u32) tuple and from struct {months,days,milliseconds}: all values -> 12 little-endian bytes
+#[kani::proof]
+#[kani::unwind(14)]
+#[kani::stub(alloc::fmt::format, crate::verif::stub_format)]
+fn c02_duration() {
+	let (m, d, ms): (u32, u32, u32) = (kani::any(), kani::any(), kani::any());
+	let mut want = spec::Enc::<12>::new();
+	want.u32_le(m);
+	want.u32_le(d);
+	want.u32_le(ms);
+	let (r, out) = ser_to::<16, _>(&nodes::DURATION, &DurTuple(m, d, ms), false);
+	assert!(r.is_ok() && bytes_eq(out.bytes(), want.bytes()), "c02_duration: tuple encoding differs");
+	std::mem::forget(r);
+	let (r, out) = ser_to::<16, _>(&nodes::DURATION, &Dur { months: m, days: d, milliseconds: ms }, false);
+	assert!(r.is_ok() && bytes_eq(out.bytes(), want.bytes()), "c02_duration: struct encoding differs");
+	std::mem::forget(r);
+}
+
+// @harness props=C02,C01 tier=quick timeout=900
+// @bound float (all f32 bit patterns via serialize_f32), double (all f64 bit patterns), boolean, unit->null, f32 to double -> Err
+#[kani::proof]
+#[kani::unwind(10)]
+#[kani::stub(alloc::fmt::format, crate::verif::stub_format)]
+fn c02_fixed_width() {
+	let fb: u32 = kani::any();
+	let f = f32::from_bits(fb);
+	let (r, out) = ser_to::<8, _>(&nodes::FLOAT, &f, false);
+	let mut want = spec::Enc::<8>::new();
+	want.f32_bits(fb);
+	assert!(r.is_ok() && bytes_eq(out.bytes(), want.bytes()), "c02_float: bits changed");
+	std::mem::forget(r);
+	let db: u64 = kani::any();
+	let g = f64::from_bits(db);
+	let (r, out) = ser_to::<8, _>(&nodes::DOUBLE, &g, false);
+	let mut want = spec::Enc::<8>::new();
+	want.f64_bits(db);
+	assert!(r.is_ok() && bytes_eq(out.bytes(), want.bytes()), "c02_double: bits changed");
+	std::mem::forget(r);
+	let b: bool = kani::any();
+	let (r, out) = ser_to::<8, _>(&nodes::BOOLEAN, &b, false);
+	assert!(r.is_ok() && out.len == 1 && out.buf[0] == b as u8, "c02_bool: wrong byte");
+	std::mem::forget(r);
+	let (r, out) = ser_to::<8, _>(&nodes::NULL, &(), false);
+	assert!(r.is_ok() && out.len == 0, "c02_null: null must encode to nothing");
+	std::mem::forget(r);
+	let (r, _) = ser_to::<8, _>(&nodes::DOUBLE, &f, false);
+	assert!(r.is_err(), "c02: f32 presented to double is documented to fail");
+	std::mem::forget(r);
+}
+
+// @harness props=C02,C01 tier=quick timeout=900
+// @bound str of 0..=3 symbolic bytes (well-formed UTF-8) to string / bytes / uuid: length-prefixed copy; to fixed(2): Ok iff 2 bytes
+#[kani::proof]
+#[kani::unwind(8)]
+#[kani::stub(alloc::fmt::format, crate::verif::stub_format)]
+fn c02_str_presentations() {
+	crate::verif::stack_node!(f2 = nodes::fixed_node(2));
+	let content: [u8; 3] = kani::any();
+	let n: usize = kani::any();
+	kani::assume(n <= 3);
+	kani::assume(spec::utf8_valid(&content[..n]));
+	let s = unsafe { std::str::from_utf8_unchecked(&content[..n]) };
+	let (r, out) = ser_to::<8, _>(&nodes::STRING, &StrSrc(s), false);
+	assert!(r.is_ok() && out.len == 1 + n && out.buf[0] == (n as u8) << 1 && (n == 0 || out.buf[n] == content[n - 1]), "c02_str: string encoding");
+	std::mem::forget(r);
+	let (r, out) = ser_to::<8, _>(&nodes::UUID, &StrSrc(s), false);
+	assert!(r.is_ok() && out.len == 1 + n && out.buf[0] == (n as u8) << 1, "c02_str: uuid encoding");
+	std::mem::forget(r);
+	let (r, out) = ser_to::<8, _>(&nodes::BYTES, &StrSrc(s), false);
+	assert!(r.is_ok() && out.len == 1 + n, "c02_str: bytes encoding");
+	std::mem::forget(r);
+	let (r, out) = ser_to::<8, _>(f2, &StrSrc(s), false);
+	if r.is_ok() {
+		assert!(n == 2 && out.len == 2 && out.buf[1] == content[1], "c02_str: fixed accepted a str of the wrong length");
+	} else {
+		assert!(n != 2, "c02_str: fixed rejected a str of the right length");
+	}
+	std::mem::forget(r);
+}
